@@ -112,6 +112,15 @@ func scenarios(tier string) []*Scenario {
 			}
 		}
 	}
+	// ---- family G: the reliable peer lags when it connects and grows afterwards; the other one can leave
+	for _, cpOn := range []bool{true, false} {
+		for pick := 0; pick < 2; pick++ {
+			sc := &Scenario{Engine: "legacy", Blocks: tree(6, 0, 0), DisableCheckpoints: !cpOn, Pick: pick}
+			sc.Nodes = []NodeSpec{{Chain: seq(1, 2), Future: seq(3, 6), Reliable: true}, {Chain: seq(1, 4)}}
+			sc.Name = fmt.Sprintf("G/legacy checkpoints=%v pick=%d", cpOn, pick)
+			out = append(out, sc)
+		}
+	}
 	// ---- experimental engine, one outbound peer, database with a fork already stored -----------------
 	for _, initial := range [][]int{{1, 2, 3, 4}, {1, 2, 5}} {
 		sc := &Scenario{Engine: "experimental", Blocks: tree(4, 2, 3), Initial: initial}
@@ -210,10 +219,15 @@ func runC06(t *testing.T, env core.Env, rep *core.Report) {
 					rep.DistinctNontrivial++
 				}
 				if judgeC06(rep, sc, hist, out) {
+					// (still expanded: the verdict on this state's fair continuation says nothing about
+					// its successors under other events)
 					rep.Outcome("not-converged")
-					continue // do not expand a state that already violates
+				} else {
+					rep.Outcome("converged")
 				}
-				rep.Outcome("converged")
+				if len(out.Problems) > 0 {
+					continue // a request-safety violation: do not build on it
+				}
 				if out.Leak != "" {
 					rep.Outcome("goroutines-left-at-bubble-exit (shutdown leak, outside C06)")
 				}
@@ -326,4 +340,3 @@ func tail(s []string, n int) []string {
 	}
 	return s
 }
-
